@@ -405,8 +405,9 @@ void top_level_op(World& W, Choices& c)
 {
   if (is_prop("C18"))
   {
-    switch (c.weighted({4, 6, 4, 3, 2, 2, 1}))
+    switch (c.weighted({4, 6, 4, 3, 2, 2, 1, 1}))
     {
+    case 7: if (alive_count(W) >= 1) op_exit_thread(W, pick_worker(W)); break;
     case 0: op_poll(W, true); break;
     case 1: op_bt_log(W, pick_worker(W), false, 0); break;
     case 2: op_bt_plain(W, pick_worker(W), false, 0); break;
